@@ -7,6 +7,7 @@ import subprocess
 
 T0 = 1_000_000_000  # every entry's mtime after a snapshot: 2001-09-09
 T0_NS = T0 * 1_000_000_000
+DEFAULT_CLOCK = "2024-06-15T12:00:00"
 CONTENT_CAP = 65536
 
 
@@ -112,6 +113,8 @@ def build(world, base):
                                stdout=subprocess.PIPE, stderr=subprocess.PIPE)
             if r.returncode:
                 raise RuntimeError("git commit failed: " + r.stderr.decode()[:300])
+    # the age of entries when the history starts (label -> ISO instant); everything else is T0
+    paths["mt"] = {rel: clock_ns(iso) for rel, iso in (world.get("mtimes") or {}).items()}
     normalise_mtimes(paths)
     return paths
 
@@ -138,10 +141,20 @@ def _iter_tree(top, tag):
     yield top, (f"{tag}/." if tag else ".")
 
 
+def clock_ns(iso):
+    """The simulated instant of a step as nanoseconds since the epoch (UTC)."""
+    import calendar
+    import time as _time
+    iso = iso or DEFAULT_CLOCK
+    return calendar.timegm(_time.strptime(iso[:19], "%Y-%m-%dT%H:%M:%S")) * 1_000_000_000
+
+
 def snapshot(paths, with_content=False):
-    """label -> [type, mode, size, sha1-or-target, touched]; touched = mtime differs from T0."""
+    """label -> [type, mode, size, sha1-or-target, touched]; touched = mtime differs from the one the simulated file
+    system last gave the entry (paths["mt"], default T0)."""
     snap = {}
     contents = {}
+    mt = paths.setdefault("mt", {})
     for key, tag in (("root", ""), ("sentinel", "@S"), ("home", "@H")):
         top = paths[key]
         for p, label in _iter_tree(top, tag):
@@ -149,7 +162,7 @@ def snapshot(paths, with_content=False):
                 st = os.lstat(p)
             except OSError:
                 continue
-            touched = st.st_mtime_ns != T0_NS
+            touched = st.st_mtime_ns != mt.get(label, T0_NS)
             if stat.S_ISLNK(st.st_mode):
                 snap[label] = ["l", 0, 0, os.readlink(p), touched]
             elif stat.S_ISDIR(st.st_mode):
@@ -165,18 +178,25 @@ def snapshot(paths, with_content=False):
     return snap, contents
 
 
-def normalise_mtimes(paths):
-    for key in ("root", "sentinel", "home"):
-        top = paths[key]
-        for dirpath, dirnames, filenames in os.walk(top):
-            if ".git" in dirnames:
-                dirnames.remove(".git")
-            for name in dirnames + filenames:
-                try:
-                    os.utime(os.path.join(dirpath, name), ns=(T0_NS, T0_NS), follow_symlinks=False)
-                except OSError:
-                    pass
-        os.utime(top, ns=(T0_NS, T0_NS))
+def normalise_mtimes(paths, touched=None, now_ns=None):
+    """Give every entry the modification time the simulated file system says it has: entries named in *touched* were
+    written by the command that just ran and get the simulated instant *now_ns*; all others keep what they had
+    (T0 unless the plan aged them). The kernel's own stamps (real time) never survive a step."""
+    mt = paths.setdefault("mt", {})
+    if touched and now_ns is not None:
+        for label in touched:
+            mt[label] = now_ns
+    seen = set()
+    for key, tag in (("root", ""), ("sentinel", "@S"), ("home", "@H")):
+        for p, label in _iter_tree(paths[key], tag):
+            seen.add(label)
+            t = mt.get(label, T0_NS)
+            try:
+                os.utime(p, ns=(t, t), follow_symlinks=False)
+            except OSError:
+                pass
+    for label in [l for l in mt if l not in seen]:
+        del mt[label]
 
 
 def diff(before, after, contents):
